@@ -154,7 +154,7 @@ class GenericQuantity(object):
             raise UnitsError(
                 'Incompatible units %s vs %s in comparison'
                 % (self_units, other_units))
-        return self_value > other_value
+        return self_value < other_value
 
     def __ge__(self, other):
         (self_value, self_units) = self._unpack_qty(self)
